@@ -1,4 +1,4 @@
-(* C19 requests: 1900..1905.
+(* C19 requests: 1900..1907.
    1900 adjust (value model)            [skew; off; langs]            -> langs
    1901 ok_adjust                       [skew; off; langs; obs]       -> [ok; some caption optional?]
    1902 merge_concurrent (value model)  langs                         -> result langs
